@@ -14,9 +14,12 @@ Definition wc_at (o : option state) (e : nat) : option wctl :=
 
 (** (1) The exit sequence of a worker removes WHATEVER entry the pair has, not its own
     (manage(): mgr.stop_managing_paths(self.src, self.dst)).  After stop_managing_paths + a new
-    request, the stale worker's exit unregisters its successor: the successor is cancelled right
-    after its first lookup, the next request spawns a third worker, and so on.  Callers are
-    still released (here caller 1 gets its path). *)
+    request, the stale worker's exit unregisters its successor; the successor keeps running
+    unregistered (or is cancelled once scc drops the removed entry), the next request spawns a
+    third worker and a fresh lookup, and so on.  Callers are still released (here caller 1 gets
+    its path).  On the real code the stale worker usually leaves by its idle timeout, because
+    stop_managing_paths does not cancel it promptly (the removed map entry, which owns the
+    cancel token, is dropped later by scc): harness scenario stale-exit-removes-successor. *)
 Definition tr_stale_exit : list label :=
   [LPeek 0 KPath false; LEnsure 0 true 0; LLoad1 0 false; LCheck 0 false; LBegin 0;
    LFetched 0 FOk; LSetErr 0; LSlot 0 true; LComplete 0; LRelease 0; LWake 0; LLoad2 0 true;
